@@ -334,6 +334,7 @@ impl Bench {
         let mut sent = 0usize;
         let mut accepted = 0usize;
         let mut refused: Vec<String> = vec![];
+        let mut taken: Vec<String> = vec![];
         // 1. reference deletion records
         for e in &out.edge_dels {
             sent += 1;
@@ -353,6 +354,7 @@ impl Bench {
             .await;
             if n > 0 {
                 accepted += 1;
+                taken.push(label);
             } else {
                 refused.push(label);
             }
@@ -371,6 +373,7 @@ impl Bench {
             .await;
             if n > 0 {
                 accepted += 1;
+                taken.push(label);
             } else {
                 refused.push(label);
             }
@@ -397,8 +400,12 @@ impl Bench {
             let mut requested: Vec<Uid> = vec![];
             for nti in ntis.iter_mut() {
                 if let Some(n) = nodes.iter().find(|n| n.id == nti.id) {
-                    nti.node = Some(n.clone());
-                    requested.push(n.id);
+                    // as `synchronise_day` does (peer_inbound_service.rs:895-900): the body arrives over the
+                    // wire (no local row id) and takes the slot of the local row it replaces
+                    let mut n: Node = wire(n);
+                    n._local_id = nti.old_local_id;
+                    nti.node = Some(n);
+                    requested.push(nti.id);
                 }
             }
             for n in &nodes {
@@ -413,6 +420,7 @@ impl Bench {
                     refused.push(format!("n{}", self.handle_of(id)));
                 } else {
                     accepted += 1;
+                    taken.push(format!("n{}", self.handle_of(id)));
                 }
             }
         }
@@ -437,12 +445,16 @@ impl Bench {
                 self.label_index(&e.src_entity, &e.label),
                 self.handle_of(&e.dest)
             );
-            match peer.svc.add_edges(room, vec![e.clone()]).await {
-                Ok(rej) if rej.is_empty() => accepted += 1,
+            match peer.svc.add_edges(room, vec![wire(e)]).await {
+                Ok(rej) if rej.is_empty() => {
+                    accepted += 1;
+                    taken.push(label);
+                }
                 _ => refused.push(label),
             }
         }
         refused.sort();
+        taken.sort();
         if (out.local_ok && !refused.is_empty()) || (!out.local_ok && accepted > 0) {
             // the peer's content no longer equals the local content before the next operation
             self.peer_stopped = true;
@@ -454,7 +466,7 @@ impl Bench {
         } else if accepted == 0 {
             format!(" peer=refuse:{}", refused.join(","))
         } else {
-            format!(" peer=partial:{}", refused.join(","))
+            format!(" peer=partial:{};ok:{}", refused.join(","), taken.join(","))
         }
     }
 
@@ -497,6 +509,72 @@ impl Bench {
                 format!("err:{}", class(&e))
             }
         }
+    }
+
+    /// the decision matrix of the room as the PEER holds it
+    pub async fn op_pobs(&mut self, kv: &Kv) -> String {
+        let r = match get_u(kv, "r") {
+            Some(r) => r,
+            None => return "bad-op".into(),
+        };
+        let id = match self.rooms.get(&r) {
+            Some(id) => *id,
+            None => return "none".into(),
+        };
+        let room = match self.peer.as_ref() {
+            Some(p) => p.room(id).await,
+            None => None,
+        };
+        match room {
+            Some(room) => {
+                let case = self.case_id;
+                matrix_of(&room, r, &self.groups, self.nkeys, self.dmax, &mut self.keys, case)
+            }
+            None => "none".into(),
+        }
+    }
+
+    /// the data rows the peer holds: `h:room:author:mdate` sorted
+    pub async fn op_pdump(&mut self) -> String {
+        let peer = match self.peer.as_ref() {
+            Some(p) => p,
+            None => return "none".into(),
+        };
+        let (tx, rx) = tokio::sync::oneshot::channel::<Vec<(Uid, Option<Uid>, i64, String, Vec<u8>)>>();
+        let _ = peer
+            .svc
+            .db
+            .reader
+            .send_async(Box::new(move |conn| {
+                let mut res = vec![];
+                if let Ok(mut stmt) = conn.prepare("SELECT id, room_id, mdate, _entity, verifying_key FROM _node") {
+                    if let Ok(it) = stmt.query_map([], |row| {
+                        Ok((row.get(0)?, row.get(1)?, row.get(2)?, row.get(3)?, row.get(4)?))
+                    }) {
+                        for r in it.flatten() {
+                            res.push(r);
+                        }
+                    }
+                }
+                let _ = tx.send(res);
+            }))
+            .await;
+        let rows = rx.await.unwrap_or_default();
+        let mut out: Vec<String> = vec![];
+        for (id, room, mdate, ent, key) in rows {
+            if self.entity_index(&ent) == "?" {
+                continue;
+            }
+            out.push(format!(
+                "{}:{}:{}:{}",
+                self.handle_of(&id),
+                self.room_index(&room),
+                self.key_index(&key),
+                mdate
+            ));
+        }
+        out.sort();
+        format!("P[{}]", out.join(","))
     }
 
     pub fn op_robs(&mut self, kv: &Kv) -> String {
